@@ -239,6 +239,18 @@ func runC05(args []string) error {
 			return err
 		}
 	}
+	// a set of more than 4 MiB with a slice size above 16 KiB that is no power of two (blocked / striped encoders:
+	// several passes over each slice, stripe widths that do not divide it)
+	{
+		s := 40000
+		d1 := make([]byte, 100*s)
+		rng.Read(d1)
+		d2 := make([]byte, 50*s-123)
+		rng.Read(d2)
+		if err := createAndObserve(lg, dir, []string{"wide1.bin", "sub/wide2.bin"}, [][]byte{d1, d2}, s, 3, 2, "6 MB, slice size 40000", nil, budget); err != nil {
+			return err
+		}
+	}
 	// many slices (tens of thousands): one per run in the thorough tier, ~9000 in quick
 	{
 		s := 4
